@@ -244,6 +244,49 @@ def ground_lazy_regions():
     return (not problems), " | ".join(problems), cases
 
 
+def ground_contains_region():
+    """containsRegion answers (or NotImplementedError/TypeError) for the planar region kinds, consistent with
+    membership on concrete nested squares (ground)."""
+    import shapely.geometry as sg
+    from scenic.core.regions import BoxRegion, CircularRegion, PolygonalRegion, RectangularRegion
+    from scenic.core.vectors import Vector
+
+    big = PolygonalRegion(polygon=sg.Polygon([(0, 0), (10, 0), (10, 10), (0, 10)]))
+    small = PolygonalRegion(polygon=sg.Polygon([(2, 2), (3, 2), (3, 3), (2, 3)]))
+    out = PolygonalRegion(polygon=sg.Polygon([(8, 8), (12, 8), (12, 12), (8, 12)]))
+    circ = CircularRegion(Vector(5, 5), 1)
+    rect = RectangularRegion(Vector(5, 5), 0.3, 1, 2)
+    box = BoxRegion(position=(5, 5, 0), dimensions=(1, 1, 1))
+    problems, cases = [], 0
+    containers = {"polygon": big, "footprint": big.footprint}
+    inside = {"polygon": small, "footprint-of-polygon": small.footprint, "circle": circ, "rectangle": rect, "box-volume": box}
+    for cn, c in containers.items():
+        for rn, r in inside.items():
+            cases += 1
+            try:
+                ans = c.containsRegion(r)
+            except (NotImplementedError, TypeError):
+                continue
+            except Exception as e:
+                problems.append(f"{cn}.containsRegion({rn}) raised {type(e).__name__}: {e}")
+                continue
+            three_d = rn in ("footprint-of-polygon", "box-volume")
+            if cn == "polygon" and three_d:
+                if ans:
+                    problems.append(f"planar polygon claims to contain the solid {rn}")
+            elif not ans:
+                problems.append(f"{cn}.containsRegion({rn}) is False for a region well inside")
+        cases += 1
+        try:
+            if c.containsRegion(out):
+                problems.append(f"{cn}.containsRegion(region sticking out) is True")
+        except (NotImplementedError, TypeError):
+            pass
+        except Exception as e:
+            problems.append(f"{cn}.containsRegion(out) raised {type(e).__name__}")
+    return (not problems), " | ".join(problems)[:800], cases
+
+
 def h_footprint_cache(ctx):
     """PolygonalFootprintRegion.approxBoundFootprint: whatever is cached, the returned prism covers the
     requested vertical range [centerZ - height/2, centerZ + height/2]."""
@@ -342,6 +385,8 @@ def obligations(tier, seed):
                           {"z": "symbolic in [2,4]"}, [R.PolygonalRegion.sampleGiven, R.PolygonalRegion.evaluateInner], []))
     obs.append(Obligation("lazy-regions-ground", None, "disc / sector / rectangle rebuilt from exactly the sampled parameters (ground)", {}, 
                           [R.CircularRegion.sampleGiven, R.SectorRegion.sampleGiven, R.RectangularRegion.sampleGiven], [], ground=ground_lazy_regions))
+    obs.append(Obligation("contains-region-ground", None, "containsRegion on nested concrete regions answers or declines, never crashes (ground)", {},
+                          [R.PolygonalFootprintRegion.containsRegionInner, R.PolygonalRegion.containsRegionInner], [], ground=ground_contains_region))
     obs.append(Obligation("footprint-prism-cache", h_footprint_cache, "approxBoundFootprint: cached or fresh prism covers the requested z range",
                           {"cache": "arbitrary", "request": "any centre, height>0"}, [R.PolygonalFootprintRegion.approxBoundFootprint],
                           ["boundFootprint (mesh extrusion): token recording its arguments"]))
